@@ -1,0 +1,153 @@
+//go:build verif
+
+package dilithium
+
+import "golang.org/x/crypto/sha3"
+
+// VerifAttempt describes one iteration of the signing rejection loop. It is produced by an instrumented
+// copy of the loop of cryptoSignSignature that exists only to *find* inputs which meet a rejection bound
+// with equality (for the boundary corpus of /verif); it is never used as an oracle.
+type VerifAttempt struct {
+	Exit                int // 0 accept, 1 z-norm, 2 w0-norm, 3 ct0-norm, 4 hint count
+	MaxZ, MaxW0, MaxCt0 int32
+	Hints               uint
+	CornerPos           bool // some coefficient of w0 - c*s2 + c*t0 equals +GAMMA2
+	CornerNegZero       bool // … equals -GAMMA2 with high part 0
+	CornerNegNonZero    bool // … equals -GAMMA2 with high part != 0
+	EmptyHintRow        bool // some row i >= 1 of the hint vector is empty while an earlier row is not
+}
+
+func verifAbs(a int32) int32 {
+	if a < 0 {
+		return -a
+	}
+	return a
+}
+
+func VerifSignTrace(m []uint8, sk *[CryptoSecretKeyBytes]uint8) []VerifAttempt {
+	var rho, key, tr [SeedBytes]uint8
+	var mu, rhoPrime [CRHBytes]uint8
+	var s1, y, z polyVecL
+	var mat [K]polyVecL
+	var s2, t0, w1, h, w0 polyVecK
+	var cp poly
+	var nonce uint16
+	var out []VerifAttempt
+	buf := make([]uint8, K*PolyW1PackedBytes)
+
+	unpackSk(&rho, &tr, &key, &t0, &s1, &s2, sk)
+	state := sha3.NewShake256()
+	state.Write(tr[:])
+	state.Write(m)
+	state.Read(mu[:])
+	var d [SeedBytes + CRHBytes]uint8
+	copy(d[:], key[:])
+	copy(d[SeedBytes:], mu[:])
+	sha3.ShakeSum256(rhoPrime[:], d[:])
+	polyVecMatrixExpand(&mat, &rho)
+	polyVecLNTT(&s1)
+	polyVecKNTT(&s2)
+	polyVecKNTT(&t0)
+	for iter := 0; iter < 1000; iter++ {
+		var a VerifAttempt
+		polyVecLUniformGamma1(&y, rhoPrime, nonce)
+		nonce++
+		z = y
+		polyVecLNTT(&z)
+		polyVecMatrixPointWiseMontgomery(&w1, &mat, &z)
+		polyVecKReduce(&w1)
+		polyVecKInvNTTToMont(&w1)
+		polyVecKCAddQ(&w1)
+		polyVecKDecompose(&w1, &w0, &w1)
+		polyVecKPackW1(buf, &w1)
+		state = sha3.NewShake256()
+		state.Write(mu[:])
+		state.Write(buf)
+		var c [SeedBytes]uint8
+		state.Read(c[:])
+		polyChallenge(&cp, c[:])
+		polyNTT(&cp)
+		polyVecLPointWisePolyMontgomery(&z, &cp, &s1)
+		polyVecLInvNTTToMont(&z)
+		polyVecLAdd(&z, &z, &y)
+		polyVecLReduce(&z)
+		for i := 0; i < L; i++ {
+			for j := 0; j < N; j++ {
+				if v := verifAbs(z.vec[i].coeffs[j]); v > a.MaxZ {
+					a.MaxZ = v
+				}
+			}
+		}
+		if a.MaxZ >= GAMMA1-BETA {
+			a.Exit = 1
+			out = append(out, a)
+			continue
+		}
+		polyVecKPointWisePolyMontgomery(&h, &cp, &s2)
+		polyVecKInvNTTToMont(&h)
+		polyVecKSub(&w0, &w0, &h)
+		polyVecKReduce(&w0)
+		for i := 0; i < K; i++ {
+			for j := 0; j < N; j++ {
+				if v := verifAbs(w0.vec[i].coeffs[j]); v > a.MaxW0 {
+					a.MaxW0 = v
+				}
+			}
+		}
+		if a.MaxW0 >= GAMMA2-BETA {
+			a.Exit = 2
+			out = append(out, a)
+			continue
+		}
+		polyVecKPointWisePolyMontgomery(&h, &cp, &t0)
+		polyVecKInvNTTToMont(&h)
+		polyVecKReduce(&h)
+		for i := 0; i < K; i++ {
+			for j := 0; j < N; j++ {
+				if v := verifAbs(h.vec[i].coeffs[j]); v > a.MaxCt0 {
+					a.MaxCt0 = v
+				}
+			}
+		}
+		if a.MaxCt0 >= GAMMA2 {
+			a.Exit = 3
+			out = append(out, a)
+			continue
+		}
+		polyVecKAdd(&w0, &w0, &h)
+		for i := 0; i < K; i++ {
+			for j := 0; j < N; j++ {
+				switch v := w0.vec[i].coeffs[j]; {
+				case v == GAMMA2:
+					a.CornerPos = true
+				case v == -GAMMA2 && w1.vec[i].coeffs[j] == 0:
+					a.CornerNegZero = true
+				case v == -GAMMA2:
+					a.CornerNegNonZero = true
+				}
+			}
+		}
+		a.Hints = polyVecKMakeHint(&h, &w0, &w1)
+		seen := false
+		for i := 0; i < K; i++ {
+			var cnt int32
+			for j := 0; j < N; j++ {
+				cnt += h.vec[i].coeffs[j]
+			}
+			if cnt == 0 && seen {
+				a.EmptyHintRow = true
+			}
+			if cnt != 0 {
+				seen = true
+			}
+		}
+		if a.Hints > OMEGA {
+			a.Exit = 4
+			out = append(out, a)
+			continue
+		}
+		out = append(out, a)
+		return out
+	}
+	return out
+}
